@@ -42,10 +42,11 @@ var H *vdrv.H
 const (
 	maxInput       = 64 * 1024
 	knownTruncID   = "C16-truncated-utf8-hang"
+	knownNamesID   = "C16-truncated-utf8-hang-css-names"
 	watchdogWall   = 10 * time.Second // in-process suspicion threshold (≥100× the normal time of a ≤64 KB input)
 	hangCPU        = 20 * time.Second // CPU time of a fresh child after which the call counts as not terminating
 	hangWall       = 240 * time.Second
-	replayCPUQuick = 6 * time.Second // bound for replays inside TestCheck (a listed known hang must not cost 20 s per run)
+	replayCPUQuick = 4 * time.Second // bound for replays inside TestCheck (a listed known hang must not cost 20 s per run)
 	minimiseCPU    = 3 * time.Second
 	extremeRepeat  = 500 // see extremeNesting
 )
@@ -304,8 +305,44 @@ func knownVerdict(id, what string) vdrv.Verdict {
 	return v
 }
 
-func tcaseKnown(c TCase) bool {
-	return truncatedTail(c.Data) && wantsSourcesContent(c.Opt)
+// cssNameTruncated: the input contains a lead byte of an n-byte UTF-8 sequence that is followed by fewer than
+// n-1 bytes before a byte that cannot be part of a CSS name (or before EOF). A CSS name token that ends in such
+// bytes reaches QuoteForJSON unchanged when it is a local name recorded in the `names` of a source map.
+func cssNameTruncated(b []byte) bool {
+	isName := func(c byte) bool {
+		return c >= 0x80 || c == '-' || c == '_' || c == '\\' || c >= 'a' && c <= 'z' || c >= 'A' && c <= 'Z' || c >= '0' && c <= '9'
+	}
+	for i, c := range b {
+		if c < 0xC0 {
+			continue
+		}
+		sz := 0
+		switch {
+		case c&0xE0 == 0xC0:
+			sz = 2
+		case c&0xF0 == 0xE0:
+			sz = 3
+		case c&0xF8 == 0xF0:
+			sz = 4
+		}
+		for k := 1; k < sz; k++ {
+			if i+k >= len(b) || !isName(b[i+k]) {
+				return true
+			}
+		}
+	}
+	return false
+}
+
+// tcaseKnownID applies the signatures of the listed findings to a transform case.
+func tcaseKnownID(c TCase) string {
+	if truncatedTail(c.Data) && wantsSourcesContent(c.Opt) {
+		return knownTruncID
+	}
+	if l := loaderOf(c.Opt); (l == "local-css" || l == "global-css") && bits(c.Opt, bSourcemap, 2) != 0 && cssNameTruncated(c.Data) {
+		return knownNamesID
+	}
+	return ""
 }
 
 // ----------------------------------------------------------------------------- core: run esbuild, apply the message oracle
@@ -568,8 +605,8 @@ func inKnownClass(sub string, raw []byte) string {
 	switch sub {
 	case "transform", "fuzztransform", "corpus":
 		var c TCase
-		if json.Unmarshal(raw, &c) == nil && tcaseKnown(c) {
-			return knownTruncID
+		if json.Unmarshal(raw, &c) == nil {
+			return tcaseKnownID(c)
 		}
 	case "srcmap":
 		var c SCase
@@ -1085,7 +1122,7 @@ func judge(sub string, c interface{}, classes []string, nontrivial bool) vdrv.Ve
 		return vdrv.Skip("harness-json")
 	}
 	if id := inKnownClass(sub, raw); id != "" && knownActive(id) {
-		return knownVerdict(id, "input ends in a truncated UTF-8 sequence and sourcesContent is requested")
+		return knownVerdict(id, "a truncated UTF-8 sequence reaches QuoteForJSON")
 	}
 	journal(sub, raw)
 	res, done, wait := watched(sub, raw, watchdogWall)
